@@ -621,6 +621,9 @@ func (h *Server) processIterationRequestMulti(iteration *synccommon.Iteration, f
 }
 
 func (h *Server) newIterator(it *synccommon.Iteration) (*iterator, error) {
+	if it == nil {
+		return nil, errors.New("request has no iteration")
+	}
 	if _, ok := synccommon.Iteration_Direction_name[int32(it.Direction)]; !ok {
 		return nil, fmt.Errorf("unknown direction value: %d", it.Direction)
 	}
